@@ -90,3 +90,24 @@ package node
 //@   ensures[stored]    ret0 == nil && __called("proxyCommitCallback") && __lastret("proxyCommitCallback", 1) == nil ==> __eq(hg.G_bodies(c.hg.Store)[block.Body.Index], block.Body)
 //@   ensures[state]     __called("proxyCommitCallback") && __lastret("proxyCommitCallback", 1) == nil ==> __eq(block.Body.StateHash, commitResponse.StateHash) && __eq(block.Body.InternalTransactionReceipts, commitResponse.InternalTransactionReceipts)
 //@   ensures[body-kept] block.Body.Index == old(block.Body.Index) && block.Body.RoundReceived == old(block.Body.RoundReceived) && block.Body.Timestamp == old(block.Body.Timestamp) && __eq(block.Body.FrameHash, old(block.Body.FrameHash)) && __eq(block.Body.PeersHash, old(block.Body.PeersHash)) && __eq(block.Body.Transactions, old(block.Body.Transactions)) && __eq(block.Body.InternalTransactions, old(block.Body.InternalTransactions))
+
+// ------------------------------------------------------------------------------------------------
+// Transaction pools (C05)
+
+//@ func (c *core) signAndInsertSelfEvent(event *hg.Event) error
+//@   trusted not verified as a whole (signs the event and runs the complete insertion and consensus pipeline, whose parts are verified separately); only its engine-computed write-set is used here
+//@   requires c != nil && event != nil
+
+//@ func (c *core) addTransactions(txs [][]byte)
+//@   requires c != nil
+//@   modifies c.transactionPool
+//@   ensures[append] len(c.transactionPool) == old(len(c.transactionPool)) + len(txs) && (forall k int :: 0 <= k && k < old(len(c.transactionPool)) ==> __seqeq(c.transactionPool[k], old(c.transactionPool)[k])) && (forall k int :: 0 <= k && k < len(txs) ==> __seqeq(c.transactionPool[old(len(c.transactionPool))+k], txs[k]))
+
+//@ func (c *core) addSelfEvent(otherHead string) error
+//@   requires c != nil && c.hg != nil && c.validator != nil && c.selfBlockSignatures != nil
+//@   ensures[too-early]       c.hg.Store.LastRound() < old(c.acceptedRound) && !__called("signAndInsertSelfEvent") ==> ret0 == nil && __eq(c.transactionPool, old(c.transactionPool)) && __eq(c.internalTransactionPool, old(c.internalTransactionPool))
+//@   ensures[not-inserted]    !__called("signAndInsertSelfEvent") ==> __eq(c.transactionPool, old(c.transactionPool)) && __eq(c.internalTransactionPool, old(c.internalTransactionPool))
+//@   call signAndInsertSelfEvent assert[handover] __arg(0) == newHead && __eq(newHead.Body.Transactions, old(c.transactionPool)) && __eq(newHead.Body.InternalTransactions, old(c.internalTransactionPool)) && newHead.Body.Index == old(c.seq) + 1 && len(newHead.Body.Parents) == 2 && newHead.Body.Parents[0] == old(c.head) && newHead.Body.Parents[1] == otherHead
+//@   ensures[trimmed]         ret0 == nil && __called("signAndInsertSelfEvent") ==> len(c.transactionPool) == 0 && len(c.internalTransactionPool) == 0
+//@   ensures[kept-on-failure] ret0 != nil ==> __eq(c.transactionPool, old(c.transactionPool)) && __eq(c.internalTransactionPool, old(c.internalTransactionPool))
+//@   call signAndInsertSelfEvent assert[pools-intact] __eq(c.transactionPool, old(c.transactionPool)) && __eq(c.internalTransactionPool, old(c.internalTransactionPool))
